@@ -275,6 +275,17 @@ fn run_board(prop: Prop, tier: Tier) -> i32 {
         fams.push(json!({"family": sf.name(), "index_space": sf.len(), "legal_members": n, "flipped_members": n2, "secs": t0.elapsed().as_secs_f64()}));
     }
 
+    // CHK5 (pawn check + slider + defender), a co-prime sub-lattice
+    if matches!(prop, Prop::C01 | Prop::C05) {
+        let t0 = Instant::now();
+        let stride: u64 = if tier == Tier::Quick { 307 } else { 7 };
+        let fam = Chk5;
+        let sf = Strided(&fam, stride);
+        let n = for_family(&sf, &|p| visit(&ctx, p));
+        let n2 = for_family(&Flipped(&sf), &|p| visit(&ctx, p));
+        fams.push(json!({"family": sf.name(), "index_space": sf.len(), "legal_members": n, "flipped_members": n2, "secs": t0.elapsed().as_secs_f64()}));
+    }
+
     // CLOCKS
     if matches!(prop, Prop::C02 | Prop::C03 | Prop::C06 | Prop::C12) {
         let t0 = Instant::now();
